@@ -653,8 +653,19 @@ func c10Explore(c *core.Ctx, p c10Prog, maxSchedules int) {
 	}
 }
 
+// spread is a fixed permutation of a tier's case numbers ((i*7919) mod n, 7919 prime and coprime to every n in use): the
+// driver hands each child a contiguous range, and the expensive kinds of cases (stress, hammer, duels / concurrent trees)
+// would otherwise all land in the last children.
+func spread(idx, n int) int {
+	if n%7919 == 0 {
+		return idx
+	}
+	return int((int64(idx) * 7919) % int64(n))
+}
+
 func c10Run(c *core.Ctx, idx int) {
 	pairs, sampled, stress := c10Tier(c.Tier)
+	idx = spread(idx, pairs+sampled+stress+c10HammerCases(c.Tier)+c10DuelCases)
 	r := c.Rng
 	n := 100
 	next := func() int { n++; return n }
@@ -690,9 +701,128 @@ func c10Run(c *core.Ctx, idx int) {
 		c10Explore(c, p, budget)
 	case idx < pairs+sampled+stress:
 		c10Stress(c)
-	default:
+	case idx < pairs+sampled+stress+c10HammerCases(c.Tier):
 		c10Hammer(c)
+	default:
+		c10Duel(c, idx-(pairs+sampled+stress+c10HammerCases(c.Tier)))
 	}
+}
+
+// duels: every ordered pair of the 13 mutators x LIFO/FIFO, each fought many times by two free-running goroutines
+const c10DuelCases = c10Alphabet * c10Alphabet * 2
+
+func c10DuelTrials(tier string) int {
+	if tier == "thorough" {
+		return 40000
+	}
+	return 3000
+}
+
+// c10Duel: ONE pair of operations, two long-lived goroutines, thousands of trials on one registered stack. Before each
+// trial the content is restored; the two calls are released together by a spin barrier with a skew that sweeps the second
+// call across the first; afterwards (return values, final content) must be what one of the two sequential orders gives.
+// No search is needed, so the number of trials can be large enough to land inside windows of a few instructions.
+func c10Duel(c *core.Ctx, k int) {
+	r := c.Rng
+	symA, symB := k%c10Alphabet, (k/c10Alphabet)%c10Alphabet
+	fifo := k/(c10Alphabet*c10Alphabet) == 1
+	L := 3
+	n := 100
+	next := func() int { n++; return n }
+	opA, opB := c10Symbol(symA, L, next), c10Symbol(symB, L, next)
+	capacity := 0
+	if r.Chance(1, 3) {
+		capacity = L + 1
+	}
+	s := NewStack(Kinds[r.Intn(5)], capacity)
+	if fifo {
+		s.SetFIFO(true)
+	}
+	s.SetMutex()
+	c10Register(s)
+	init := []any{1, 2, 3}
+	initEnc := encodeList(init)
+	// the two sequential outcomes
+	type outcome struct {
+		a, b  c10Out
+		final string
+	}
+	var legal [2]outcome
+	{
+		oa, st := c10Step(initEnc, fifo, capacity, opA)
+		ob, st2 := c10Step(st, fifo, capacity, opB)
+		legal[0] = outcome{oa, ob, st2}
+		ob2, st3 := c10Step(initEnc, fifo, capacity, opB)
+		oa2, st4 := c10Step(st3, fifo, capacity, opA)
+		legal[1] = outcome{oa2, ob2, st4}
+	}
+	desc := map[string]any{"a": opA.String(), "b": opB.String(), "fifo": fifo, "cap": capacity}
+	trials := c10DuelTrials(c.Tier)
+	var ready atomic.Int64
+	var skew atomic.Int64
+	var outA, outB c10Out
+	var panicked atomic.Value
+	wake := [2]chan bool{make(chan bool), make(chan bool)} // parked workers block here (no spinning between trials)
+	fin := make(chan struct{}, 2)
+	worker := func(op c10Op, out *c10Out, me int) {
+		for <-wake[me] {
+			// a short spin barrier, so that the two calls start within nanoseconds of each other
+			ready.Add(1)
+			for spins := 0; ready.Load() < 2 && spins < 1<<16; spins++ {
+			}
+			if me == 1 {
+				for i := int64(0); i < skew.Load(); i++ {
+					_ = i
+				}
+			}
+			if p, msg, site := Guard(func() { *out = c10Apply(s, op) }); p {
+				panicked.Store(op.String() + " panicked (" + site + "): " + msg)
+			}
+			fin <- struct{}{}
+		}
+	}
+	go worker(opA, &outA, 0)
+	go worker(opB, &outB, 1)
+	stopWorkers := func() { wake[0] <- false; wake[1] <- false }
+	watchdog := time.NewTimer(time.Hour)
+	defer watchdog.Stop()
+	for t := 1; t <= trials; t++ {
+		// restore the content (sequentially: the workers are parked)
+		s.Reset()
+		s.Push(init...)
+		skew.Store(int64((t * 7) % 160))
+		ready.Store(0)
+		wake[0] <- true
+		wake[1] <- true
+		if t%256 == 1 {
+			watchdog.Reset(90 * time.Second) // (covers the next 256 trials)
+		}
+		for i := 0; i < 2; i++ {
+			select {
+			case <-fin:
+			case <-watchdog.C:
+				c.Inconclusive("C10 duel: a call did not return within the 90 s watchdog (possible deadlock)")
+				return
+			}
+		}
+		if v := panicked.Load(); v != nil {
+			stopWorkers()
+			c.Violate("duel:panic", fmt.Sprintf("%v (trial %d of %s || %s)", v, t, opA, opB), desc)
+			return
+		}
+		final := encodeList(contentOf(s))
+		got := outcome{outA, outB, final}
+		if got != legal[0] && got != legal[1] {
+			stopWorkers()
+			c.Violate("duel:not-a-sequential-outcome", fmt.Sprintf("trial %d: %s -> %+v || %s -> %+v on [%s] (fifo=%v cap=%d) ended as [%s]; A;B gives %+v %+v [%s], B;A gives %+v %+v [%s]",
+				t, opA, outA, opB, outB, initEnc, fifo, capacity, final, legal[0].a, legal[0].b, legal[0].final, legal[1].a, legal[1].b, legal[1].final), desc)
+			return
+		}
+	}
+	stopWorkers()
+	c.Count("duel.pairs")
+	c.Add("duel.trials", int64(trials))
+	c.NontrivialStr(fmt.Sprintf("duel|%s|%s|%v", opA, opB, fifo))
 }
 
 func c10HammerCases(tier string) int {
@@ -1046,7 +1176,7 @@ func init() {
 		ID: "C10",
 		Cases: func(tier string) int {
 			a, b, s := c10Tier(tier)
-			return a + b + s + c10HammerCases(tier)
+			return a + b + s + c10HammerCases(tier) + c10DuelCases
 		},
 		Run:      c10Run,
 		Teardown: c10Teardown,
@@ -1056,6 +1186,7 @@ func init() {
 			"At every switch a VerifDump snapshot decides 'writes only inside the critical section' (content, configuration slot, lock bookkeeping), capacity and the presence of the configuration record; deadlock = no enabled worker; each history (call/return stamps + final read) is checked by porcupine against the sequential list model. " +
 			"stress: 3..7 free-running goroutines x 2..4 ops with yields injected at lock.want, histories checked by porcupine; the whole run executes under the Go race detector and every report is classified by the registered address it touches (slice header / configuration record field / elsewhere) and by the reading function. " +
 			"hammer (480 / 12 000 runs): 1-3 goroutines cycle a stack of P+2 unique values (Pop then Push of the popped value) while others Replace position 0 or Swap(0,1), 300-1200 iterations each; since at least two values are present in every sequential order, every Pop/Replace/Swap must succeed, and at the end length and content are conserved (unique values). " +
+			"duels (338 pairs: every ordered pair of the 13 mutators x LIFO/FIFO; 3 000 / 40 000 trials each): two long-lived goroutines perform the two calls on one stack, released together by a spin barrier with a sweeping skew; each trial must end in one of the two sequential outcomes (return values and final content). " +
 			"non-trivial = program for which at least two different interleavings were executed, or a completed stress history; distinct = program text.",
 		Assumptions: []string{
 			"interleavings are explored at lock-acquisition granularity; instruction-level interleavings inside a block are visible only to the race detector, and only when the stress run produces them",
@@ -1063,7 +1194,7 @@ func init() {
 			"porcupine timeouts in the stress part are counted, not judged",
 		},
 		Floors: func(tier string) map[string]int64 {
-			return map[string]int64{"explorer.executions": 10000, "explorer.programs-exhausted": 3000, "explorer.histories-linearizable": 5000, "stress.histories": 500, "stress.histories-linearizable": 300, "hammer.runs": 400, "hammer.pops": 100000}
+			return map[string]int64{"explorer.executions": 10000, "explorer.programs-exhausted": 3000, "explorer.histories-linearizable": 5000, "stress.histories": 500, "stress.histories-linearizable": 300, "hammer.runs": 400, "hammer.pops": 100000, "duel.pairs": 300, "duel.trials": 1000000}
 		},
 	})
 }
